@@ -1991,6 +1991,10 @@ var leaves7 = []leaf7Spec{
 	{"net/ntske", "Provider.generateNext", "ntske_Provider_generateNext", "LeafNtske"},
 	{"net/ntske", "Provider.Get", "ntske_Provider_Get", "LeafNtske"},
 	{"net/ntske", "Provider.Current", "ntske_Provider_Current", "LeafNtske"},
+	{"base/crypto", "randInt31", "crypto_randInt31", "LeafCrypto"},
+	{"base/crypto", "randInt63", "crypto_randInt63", "LeafCrypto"},
+	{"base/crypto", "RandIntn", "crypto_RandIntn", "LeafCrypto"},
+	{"base/crypto", "Sample", "crypto_Sample", "LeafCrypto"},
 }
 
 func emitLeaves7(repo string, parsed map[string][]*ast.File, fset *token.FileSet, leafPath string) {
